@@ -66,7 +66,7 @@ def rle_arrays(runs):
 
 
 @st.composite
-def case_strategy(draw, allow_rle=False):
+def case_strategy(draw, allow_rle=False, allow_relabel=True):
     rle = None
     if allow_rle and draw(st.integers(0, 39)) == 0:
         rle = draw(rle_pair())
@@ -100,7 +100,7 @@ def case_strategy(draw, allow_rle=False):
         del case["pred"], case["ref"]
     # label values: in a quarter of the cases an injective renaming into wide value classes (jointly for matched
     # input), stored in a dtype that is wide enough - possibly only just
-    if rle is None and draw(st.integers(0, 3)) == 0:
+    if allow_relabel and rle is None and draw(st.integers(0, 3)) == 0:
         cls = ("small", "near8", "over8", "mult256", "near16", "over16")
         pl = [int(x) for x in np.unique(pred) if x]
         rl = [int(x) for x in np.unique(ref) if x]
